@@ -15,7 +15,7 @@ from strawberryfields.compilers import compiler_db
 PROP = "C02"
 LEVEL = "proof"
 COQ_TARGETS = ["C02/Alg.vo", "C02/Model.vo", "C02/Float.vo", "C02/Proofs.vo", "C02/ProofsSeq.vo", "C02/ProofsGate.vo",
-               "C02/ProofsDrv.vo", "C02/ProofsRefute.vo", "C02/Mesh.vo", "C02/Inst.vo"]
+               "C02/ProofsDrv.vo", "C02/ProofsRefute.vo", "C02/Mesh.vo", "C02/Embed.vo", "C02/Inst.vo"]
 COQ_DIRS = ["C02"]
 PROPERTIES_FILE = "Properties/C02.v"
 ALLOWED_AXIOMS = set()
@@ -39,7 +39,20 @@ TRUSTED_BASE = [
     "matrix numerics (Clements/Reck nulling, Takagi, Williamson, Bloch-Messiah, compact meshes) are exercised by the search only",
 ]
 ASSUMPTIONS = ["hbar = 2 (sf.hbar default) in all runs", "Fock-backend comparisons use small amplitudes/squeezing so that truncation error < 1e-4"]
-MANIFEST_TEXT = "see report"
+MANIFEST_TEXT = (
+    "proof (partial). FULL, for every parameter value, over any commutative ring with the trig/hyperbolic identities as hypotheses: "
+    "C02_decomp_sound (all nine Gate._decompose methods implement the documented symplectic+displacement), C02_dagger / "
+    "C02_doc_symplectic (reverse-and-flip implements the inverse), C02_decompose_cmd (either order / position of target wires), "
+    "C02_apply_conventions (p0==0 skip and dagger=>negate p0 are right for D/S/R/BS/S2), C02_compile_decompose + "
+    "C02_compile_terminates (Compiler.decompose preserves the documented action for any table, fuel 4 suffices), "
+    "C02_gaussian_target / C02_bosonic_target (end-to-end for those tables), C02_sMZ_is_M, and at group level "
+    "C02_mesh_rectangular and C02_mesh_triangular (any nulling schedule), C02_mesh_sun_reversal, C02_mesh_compact_right, "
+    "C02_mesh_compact_two_sided, C02_sMZ_absorbs_common_phase; n-mode registers: C02_embedded_decomposition, C02_embedded_compile, "
+    "C02_embedded_order_and_locality (any n, any two distinct wire positions, either order). "
+    "REFUTED on the faithful model (known findings): C02_mz_zero_skipped_refuted, C02_mz_dagger_refuted, C02_fock_target_refuted; "
+    "C02_mesh_triangular_old_refuted is about the pre-8725dba assembly only. PARTIAL / search-only: numerical nulling, the routing of "
+    "zetas in _absorb_zeta and the layer-wise emission order of _rectangular_compact_cmds, "
+    "Takagi/Williamson/Bloch-Messiah inside GraphEmbed/BipartiteGraphEmbed/GaussianTransform/Gaussian, Ggate, Fock matrix elements.")
 
 TOL = 2e-7       # closed-form gate identities through the gaussian simulator (Pgate's acosh(sqrt(1+t^2)) loses ~1e-8 for tiny t)
 TOL_MAT = 1e-6   # numerical matrix decompositions
